@@ -395,6 +395,7 @@ inline void auditLookup(const ADD& d, vf::Case& c, const std::string& ctx) {
   // getCategoryIndex: the header does not say whether the index counts from 0 (as getCategory(i) does) or from 1; the function is judged
   // as a whole: one of the two conventions must classify every test point correctly
   std::string bad0, bad1; size_t npts = 0;
+  struct Both { double x; size_t jv, ji; }; std::vector<Both> both;   // points where both look-ups answered
   for (double x : xs) {
     if (!std::isfinite(x)) continue;
     bool inDom = (s.slb ? x > s.lb : x >= s.lb) && (s.sub ? x < s.ub : x <= s.ub);
@@ -405,10 +406,12 @@ inline void auditLookup(const ADD& d, vf::Case& c, const std::string& ctx) {
     ++npts;
     auto in = [&](size_t j) { for (size_t q : ok) if (q == j) return true; return false; };
     std::string exp = "{"; for (size_t q : ok) exp += str(q) + " "; exp += "}";
+    size_t jv = k;
     if (!f1) {
       try {
         double r = d.getValueCategory(x);
         size_t j = k; for (size_t i = 0; i < k; ++i) if (s.v[i] == r) j = i;
+        jv = j;
         if (j == k) { c.fail("lookup|getValueCategory|returns-a-value-that-is-no-class-value", ctx + " -> " + snapStr(s) + " | getValueCategory(" + num(x) + ")=" + num(r)); f1 = true; }
         else if (!in(j)) { c.fail("lookup|getValueCategory|wrong-class", ctx + " -> " + snapStr(s) + " | getValueCategory(" + num(x) + ")=" + num(r) + " = class " + str(j) + " (counting from 0), but the value lies in class " + exp); f1 = true; }
       } catch (Exception& e) { c.fail("lookup|getValueCategory|raises-inside-domain", ctx + " -> " + snapStr(s) + " | x=" + num(x) + ": " + e.what()); f1 = true; }
@@ -422,6 +425,17 @@ inline void auditLookup(const ADD& d, vf::Case& c, const std::string& ctx) {
       if (foreign) { c.fail("lookup|getCategoryIndex|throws-an-object-that-is-no-exception", ctx + " -> " + snapStr(s) + " | getCategoryIndex(" + num(x) + ") threw an object that is not an exception; the value lies in class " + exp + " (counting from 0)"); f3 = true; continue; }
       if (!in(j) && bad0.empty()) bad0 = "getCategoryIndex(" + num(x) + ")=" + str(j) + " but the value lies in class " + exp + " counting from 0";
       if (!(j >= 1 && in(j - 1)) && bad1.empty()) bad1 = "getCategoryIndex(" + num(x) + ")=" + str(j) + " but the value lies in class " + exp + " counting from 0, i.e. one more counting from 1";
+      if (jv < k) both.push_back(Both{x, jv, j});
+    }
+  }
+  // the classes are a partition: a value on a bound belongs to one of the two adjacent classes, and both look-ups must name the same one
+  if (!f1 && !f3 && !c.failed && (bad0.empty() || bad1.empty())) {
+    for (int conv = 0; conv < 2; ++conv) {
+      if (!(conv == 0 ? bad0.empty() : bad1.empty())) continue;
+      const Both* w = nullptr; for (auto& b : both) if (b.ji != b.jv + (size_t)conv) { w = &b; break; }
+      if (!w) break;                                      // this convention makes the two look-ups agree everywhere
+      if (conv == 0 && bad1.empty()) continue;            // try the other convention before judging
+      c.fail("lookup|the-two-look-ups-put-one-value-in-different-classes", ctx + " -> " + snapStr(s) + " | getValueCategory(" + num(w->x) + ") names class " + str(w->jv) + ", getCategoryIndex(" + num(w->x) + ")=" + str(w->ji) + " (index counted from " + str(conv) + ")");
     }
   }
   if (!f3 && !bad0.empty() && !bad1.empty())
